@@ -43,6 +43,10 @@ pub enum P {
     /// async: spawn(child: req a -> event); join!(jh, req b) -> event(b), mark m   (a join handle awaited
     /// alongside another wake source)
     JoinReq(S, S, S),
+    /// task 1: join(request u -> event, request s -> value forwarded over a channel); task 2 reads the
+    /// channel (events, final mark on close): a poll of task 1 can wake ANOTHER task while task 1
+    /// itself is left without any waker (the other branch's request was dropped)
+    JoinForward(S, S, S),
     /// async: spawn(child: req a -> event); select(jh, req b): child first -> mark m, b first -> event(b)
     SelectJoinReq(S, S, S),
     /// async: jh = spawn(child: req a -> event); jh.abort() at once; jh.await; mark m  (abort before the
@@ -172,7 +176,7 @@ impl P {
             | P::Join(a, b) | P::Select(a, b) | P::SpawnJoin(a, b) | P::SpawnAfter(a, b) | P::SpawnEvent(a, b) | P::Burst(a, b) | P::Channel(a, b)
             | P::Unordered(a, b) | P::JoinTwice(a, b) | P::JoinBusy(a, b) | P::MixedNotify(a, b) | P::AbortSpawned(a, b) | P::SelfAbort(a, b) | P::SpawnThenSelfAbort(a, b)
             | P::StreamUntil(a, b) | P::SpawnChain(a, b) | P::StreamHandOff(a, b) => vec![a, b],
-            P::AbortChild(a, b, c) | P::IntoFuture(a, b, c) | P::JoinReq(a, b, c) | P::SelectJoinReq(a, b, c) | P::HandOff(a, b, c)
+            P::AbortChild(a, b, c) | P::IntoFuture(a, b, c) | P::JoinReq(a, b, c) | P::JoinForward(a, b, c) | P::SelectJoinReq(a, b, c) | P::HandOff(a, b, c)
             | P::JoinSpawn(a, b, c) => vec![a, b, c],
             _ => vec![],
         }
